@@ -27,7 +27,7 @@ PROJ = {
     "C01": {"op", "classify", "resultClassify"},
     "C02": {"op", "sleeper"},
     "C03": {"op", "sleeper", "budgetConsume", "abortIf", "sleepHandler", "strategy", "result"},
-    "C04": {"op", "result:call"},
+    "C04": {"op", "result:call", "resultClassify"},   # which attempt is "classified as success"
     "C05": {"strategy", "sleeper", "sleepHandler", "beforeSleep", "result"},
     "C07": {"breakerAllow", "op", "result"},
     "C08": {"breakerAllow", "breakerSuccess", "breakerFailure", "breakerCancel"},
@@ -72,6 +72,8 @@ def gen_cfg(rng: random.Random, focus: str | None = None) -> tuple[LoopCfg, Prof
     for k in CLASSES:
         if rng.random() < (0.25 if c.strat_default else 0.6):
             c.strat_for[k] = _spec(rng, rng.choice(["ctx", "legacy"]))
+    if c.strat_default is None and rng.random() < 0.12:
+        c.strat_for = {}                 # `strategies={}` and no default: NO_STRATEGY for every class
     keys = (["default"] if c.strat_default else []) + [f"cls:{k}" for k in c.strat_for]
     c.strat_records = [k for k in keys if rng.random() < 0.25]
     if rng.random() < 0.4:
